@@ -1,7 +1,10 @@
 /-
 Line-protocol driver for the `set` cluster (TraitSet / builtin set).
   kind|validator|init|cmd;cmd;…   →   res ; res ; …
-kind = `ts` (the TraitSet model) or `ps` (the builtin-set model alone).
+kind = `ts` (the TraitSet model), `ps` (the builtin-set model alone) or `to` (the
+value of a `Set(<trait>)` trait on a HasTraits owner, `validator` then names the
+inner trait: Int, CInt, CStr, Range05, Any; `or` = the owner is deleted and
+garbage-collected).
 Atoms: `i3` = 3, `s3` = '3'.  Operands carry their Python type: `S[..]` set,
 `F[..]` frozenset, `L[..]` list, `G[..]` generator.  `po x` = pop() where the
 implementation popped `x` (`po _` on an empty set).  `cp k x` = copy
@@ -53,6 +56,7 @@ inductive Cmd where
   | op (o : Op KAtom)
   | probe (k : CopyKind) (x : KAtom)
   | switch (k : CopyKind)
+  | orphan
 
 def copyKind? : String → Option CopyKind
   | "c" => some .copy
@@ -77,6 +81,7 @@ def parseCmd (s : String) : Option Cmd :=
   | ["ix", a] => do let (b, xs) ← operand? a; pure (.op (.ixor b xs))
   | ["cp", k, x] => do pure (.probe (← copyKind? k) (← atom? x))
   | ["sw", k] => do pure (.switch (← copyKind? k))
+  | ["or"] => some .orphan
   | _ => none
 
 def showEvent (e : SEvent KAtom) : String := s!"E{showSet e.removed}{showSet e.added}"
@@ -101,6 +106,38 @@ def runCmds (v : Callback KAtom KAtom) : PSet KAtom → List Cmd → List String
     match TraitSet.copyOp k ({ items := s, validator := v, notifiers := [0, 1] } : TSObj KAtom Nat) with
     | .error e => s!"err {e.name}" :: runCmds v s cs
     | .ok c => s!"ok {showSet c.items} - -" :: runCmds v c.items cs
+  | s, .orphan :: cs => "bad-cmd" :: runCmds v s cs
+
+/-- The inner traits of the `to` stream (none of them consults the owner). -/
+def innerTrait (name : String) : Option (Callback KAtom KAtom) :=
+  match name with
+  | "Int" => KAtom.validator "intonly"
+  | "CInt" => KAtom.validator "toint"
+  | "CStr" => KAtom.validator "tostr"
+  | "Range05" => KAtom.validator "range05"
+  | "Any" => KAtom.validator "id"
+  | _ => none
+
+def runObjCmds (v : Callback KAtom KAtom) : TSOObj KAtom → List Cmd → List String
+  | _, [] => []
+  | o, .op op :: cs =>
+    let val := TraitSetObject.validator o.vself (fun _ => v)
+    showRes (TraitSet.step val o.items op) :: runObjCmds v { o with items := TraitSet.next val o.items op } cs
+  | o, .probe k x :: cs =>
+    let line := match TraitSetObject.copyOp (fun _ => v) k o with
+      | .error e => s!"err {e.name}"
+      | .ok c =>
+        let probe := match TraitSet.step (TraitSetObject.validator c.vself (fun _ => v)) c.items (.add x) with
+          | .error e => s!"err {e.name}"
+          | .ok r => s!"ok {showSet r.items}"
+        s!"copy {showSet c.items} notifiers=1 probe:{probe}"
+    line :: runObjCmds v o cs
+  | o, .switch k :: cs =>
+    match TraitSetObject.copyOp (fun _ => v) k o with
+    | .error e => s!"err {e.name}" :: runObjCmds v o cs
+    | .ok c => s!"ok {showSet c.items} - -" :: runObjCmds v c cs
+  | o, .orphan :: cs =>
+    s!"ok {showSet o.items} - -" :: runObjCmds v { o with self := o.self.orphaned, vself := o.vself.orphaned } cs
 
 def pyRun : PSet KAtom → List Cmd → List String
   | _, [] => []
@@ -113,6 +150,15 @@ def pyRun : PSet KAtom → List Cmd → List String
 def handle (line : String) : String :=
   match (clean line).splitOn "|" with
   | [kind, v, init, cmds] =>
+    if clean kind = "to" then
+      match innerTrait (clean v), atoms? init, (fields cmds ";").mapM parseCmd with
+      | some v, some init, some cmds =>
+        -- assignment of the initial value: Set.validate wraps it in a TraitSetObject, which validates the items
+        match TraitSet.init (TraitSetObject.validator TSOSelf.live (fun _ => v)) init with
+        | .error e => s!"err {e.name}"
+        | .ok s => " ; ".intercalate (runObjCmds v { items := s, self := .live, vself := .live } cmds)
+      | _, _, _ => "bad-case"
+    else
     match KAtom.validator (clean v), atoms? init, (fields cmds ";").mapM parseCmd with
     | some v, some init, some cmds =>
       if clean kind = "ps" then " ; ".intercalate (pyRun (PSet.ofList init) cmds)
